@@ -72,6 +72,10 @@ pub open spec fn adaptive_ok(info: AdaptiveFeeInfo, tick_spacing: u16) -> bool {
             (amount_remaining > 0 && adjusted_sqrt_price_limit != curr_sqrt_price) ==> (if a_to_b { (curr_tick_index as int) < (fee_rate_manager->tick_group_index as int + 1) * g_m0->adaptive_fee_constants.tick_group_size as int }
                 else { curr_tick_index as int >= fee_rate_manager->tick_group_index as int * g_m0->adaptive_fee_constants.tick_group_size as int }), //# C14
 //@ loop 1
+            invariant_except_break
+                group_rel(fee_rate_manager->tick_group_index as int, g_m0->adaptive_fee_constants.tick_group_size as int, curr_sqrt_price as int), //# C14
+                (if a_to_b { (next_tick_index as int) < (fee_rate_manager->tick_group_index as int + 1) * g_m0->adaptive_fee_constants.tick_group_size as int }
+                    else { next_tick_index as int > fee_rate_manager->tick_group_index as int * g_m0->adaptive_fee_constants.tick_group_size as int }), //# C14
             invariant
                 tick_spacing == whirlpool.tick_spacing, fee_rate == whirlpool.fee_rate, protocol_fee_rate == whirlpool.protocol_fee_rate,
                 whirlpool.fee_rate <= 60_000, whirlpool.protocol_fee_rate <= 2_500, whirlpool.tick_spacing > 0,
@@ -86,17 +90,13 @@ pub open spec fn adaptive_ok(info: AdaptiveFeeInfo, tick_spacing: u16) -> bool {
                 a_to_b ==> adjusted_sqrt_price_limit < whirlpool.sqrt_price, !a_to_b ==> adjusted_sqrt_price_limit > whirlpool.sqrt_price,
                 next_array_index < 3,
                 tick_ok(next_tick_index as int), next_tick_sqrt_price as int == price_at(next_tick_index as int), price_ok(sqrt_price_target as int),
-                next_tick_index as int % tick_spacing as int == 0 || next_tick_index == -443636 || next_tick_index == 443636,
+                next_tick_index as int % tick_spacing as int == 0 || (a_to_b && next_tick_index == -443636) || (!a_to_b && next_tick_index == 443636),
                 a_to_b ==> sqrt_price_target as int == max_i(adjusted_sqrt_price_limit as int, next_tick_sqrt_price as int) && sqrt_price_target <= curr_sqrt_price,
                 !a_to_b ==> sqrt_price_target as int == min_i(adjusted_sqrt_price_limit as int, next_tick_sqrt_price as int) && sqrt_price_target >= curr_sqrt_price,
                 g_lo <= curr_tick_index <= g_hi, //# C05
                 forall|t: int| g_lo < t <= g_hi ==> !#[trigger] seq_init(*swap_tick_sequence, t), //# C05
                 curr_liquidity == g_liq, //# C05
                 a_to_b ==> g_lo <= next_tick_index, !a_to_b ==> next_tick_index <= g_hi + 1, //# C05
-            invariant_except_break
-                group_rel(fee_rate_manager->tick_group_index as int, g_m0->adaptive_fee_constants.tick_group_size as int, curr_sqrt_price as int), //# C14
-                (if a_to_b { (next_tick_index as int) < (fee_rate_manager->tick_group_index as int + 1) * g_m0->adaptive_fee_constants.tick_group_size as int }
-                    else { next_tick_index as int > fee_rate_manager->tick_group_index as int * g_m0->adaptive_fee_constants.tick_group_size as int }), //# C14
             ensures
                 (amount_remaining > 0 && adjusted_sqrt_price_limit != curr_sqrt_price) ==> group_rel(fee_rate_manager->tick_group_index as int, g_m0->adaptive_fee_constants.tick_group_size as int, curr_sqrt_price as int), //# C14
                 (amount_remaining > 0 && adjusted_sqrt_price_limit != curr_sqrt_price) ==> (if a_to_b { (curr_tick_index as int) < (fee_rate_manager->tick_group_index as int + 1) * g_m0->adaptive_fee_constants.tick_group_size as int }
@@ -112,8 +112,32 @@ pub open spec fn adaptive_ok(info: AdaptiveFeeInfo, tick_spacing: u16) -> bool {
             proof { axiom_price_at(); }
             let ghost g_step_liquidity = curr_liquidity; let ghost g_step_price = curr_sqrt_price; let ghost g_fee_split_done = false;
             let ghost g_step_group = fee_rate_manager->tick_group_index as int;
+//@ inject before /let swap_computation = compute_swap\(/
+            proof { lemma_bounded_side(fee_rate_manager, curr_sqrt_price as int, sqrt_price_target, curr_liquidity); }
+            let ghost g_rem_before = amount_remaining;
 //@ inject before /let \(next_protocol_fee, next_fee_growth_global_input\) = calculate_fees\(/
             proof { assert(curr_liquidity == g_step_liquidity && curr_sqrt_price == g_step_price); } //# C06 C01
+            // a step that stops short of its (bounded) target has used up the whole amount
+            proof { assert(swap_computation.next_price != bounded_sqrt_price_target ==> amount_remaining == 0); }
+//@ inject before /^\s*if !?adaptive_fee_update_skipped \{/
+            let ghost g_mgr = fee_rate_manager;
+            proof { lemma_group_bounds(g_step_group, g_m0->adaptive_fee_constants.tick_group_size as int, g_step_price as int); }
+//@ inject before /if amount_remaining == 0 \|\| curr_sqrt_price == sqrt_price_target \{/
+            proof {
+                let gs = g_m0->adaptive_fee_constants.tick_group_size as int; let ts = tick_spacing as int;
+                let g2 = fee_rate_manager->tick_group_index as int;
+                if amount_remaining > 0 {
+                    assert(curr_sqrt_price == bounded_sqrt_price_target);
+                    if !adaptive_fee_update_skipped {
+                        if a_to_b { lemma_step_a2b(gs, ts, g_step_group, g_step_price as int, curr_sqrt_price as int, sqrt_price_target as int, next_tick_index as int, adjusted_sqrt_price_limit as int); }
+                        else { lemma_step_b2a(gs, ts, g_step_group, g_step_price as int, curr_sqrt_price as int, sqrt_price_target as int, next_tick_index as int, adjusted_sqrt_price_limit as int); }
+                    } else {
+                        if a_to_b { lemma_skip_a2b(gs, ts, g_step_group, g_step_price as int, curr_sqrt_price as int, sqrt_price_target as int, next_tick_index as int, adjusted_sqrt_price_limit as int, g_m0->core_tick_group_range_upper_bound, g2); }
+                        else { lemma_skip_b2a(gs, ts, g_step_group, g_step_price as int, curr_sqrt_price as int, sqrt_price_target as int, next_tick_index as int, adjusted_sqrt_price_limit as int, g_m0->core_tick_group_range_lower_bound, g2); }
+                    }
+                    lemma_group_arith(g2, gs);
+                }
+            }
 //@ inject after /curr_fee_growth_global_input = next_fee_growth_global_input;/
             let ghost g_fee_split_done = true;
 //@ inject before /let \(update, next_liquidity\) = calculate_update\(/
@@ -127,6 +151,166 @@ pub open spec fn adaptive_ok(info: AdaptiveFeeInfo, tick_spacing: u16) -> bool {
 //@ inject before /let tick_offset = swap_tick_sequence\.get_tick_offset\(/
                 proof { if !next_tick_initialized { if a_to_b { if next_tick_index as int - 1 < g_lo { g_lo = next_tick_index as int - 1; } } else { if next_tick_index as int > g_hi { g_hi = next_tick_index as int; } } } }
 //@ end
+
+pub proof fn lemma_div_chain(n: int, ts: int, gs: int) requires ts > 0, gs > 0, n % ts == 0, ts % gs == 0 ensures n % gs == 0
+{
+    vstd::arithmetic::div_mod::lemma_fundamental_div_mod(n, ts); vstd::arithmetic::div_mod::lemma_fundamental_div_mod(ts, gs);
+    let a = n / ts; let b = ts / gs;
+    assert(n == gs * (b * a)) by(nonlinear_arith) requires n == ts * a, ts == gs * b;
+    vstd::arithmetic::div_mod::lemma_fundamental_div_mod_converse(n, gs, b * a, 0);
+}
+pub proof fn lemma_multiple_in_window(n: int, g: int, gs: int) requires gs > 0, n % gs == 0, g * gs <= n < g * gs + gs ensures n == g * gs, n / gs == g
+{
+    vstd::arithmetic::div_mod::lemma_fundamental_div_mod(n, gs);
+    let q = n / gs;
+    assert(q == g) by(nonlinear_arith) requires n == gs * q, g * gs <= n < g * gs + gs, gs > 0;
+    assert(g * gs == gs * g) by(nonlinear_arith);
+}
+pub proof fn lemma_gp_mono(x: int, y: int, gs: int) requires x <= y, gs >= 1 ensures group_price(x, gs) <= group_price(y, gs), MIN_PRICE() <= group_price(x, gs) <= MAX_PRICE()
+{
+    axiom_price_at();
+    assert(x * gs <= y * gs) by(nonlinear_arith) requires x <= y, gs >= 1;
+}
+/// arithmetic of neighbouring groups
+pub proof fn lemma_group_arith(g: int, gs: int) ensures (g + 1) * gs == g * gs + gs, (g - 1) * gs == g * gs - gs, (g + 2) * gs == g * gs + 2 * gs
+{ assert((g + 1) * gs == g * gs + gs && (g - 1) * gs == g * gs - gs && (g + 2) * gs == g * gs + 2 * gs) by(nonlinear_arith); }
+/// the group relation bounds the group index (preconditions of the manager's i32 arithmetic)
+pub proof fn lemma_group_bounds(g: int, gs: int, p: int) requires group_rel(g, gs, p), 1 <= gs <= 65535 ensures -600_000 <= g * gs <= 600_000, -GROUP_BOUND() + 1 < g < GROUP_BOUND() - 1
+{
+    assert(-GROUP_BOUND() + 1 < g < GROUP_BOUND() - 1) by(nonlinear_arith) requires -443637 - gs < g * gs <= 443636, 1 <= gs <= 65535;
+}
+
+/// the bounded target lies between the requested target and the current price
+pub proof fn lemma_bounded_side(m: FeeRateManager, p: int, target: u128, liq: u128)
+    requires m is Adaptive, core_ok(m), group_rel(m->tick_group_index as int, m->adaptive_fee_constants.tick_group_size as int, p), 1 <= m->adaptive_fee_constants.tick_group_size <= 65535,
+        price_ok(target as int), price_ok(p), m->a_to_b ==> target as int <= p, !m->a_to_b ==> target as int >= p,
+    ensures ({ let r = bounded_target_spec(m, target, liq).0 as int; (m->a_to_b ==> target as int <= r <= p) && (!m->a_to_b ==> p <= r <= target as int) }),
+{
+    axiom_price_at();
+    let g = m->tick_group_index as int; let gs = m->adaptive_fee_constants.tick_group_size as int;
+    lemma_group_arith(g, gs); lemma_gp_mono(g, g + 1, gs);
+    let lo = m->core_tick_group_range_lower_bound; let up = m->core_tick_group_range_upper_bound;
+    if lo is Some && g < opt_idx(lo) { let i = opt_idx(lo); lemma_gp_mono(g + 1, i, gs); assert(group_price(i, gs) == price_at(i * gs)); }
+    if up is Some && g > opt_idx(up) { let i = opt_idx(up); lemma_group_arith(i, gs); lemma_gp_mono(i + 1, g, gs); assert(group_price(i + 1, gs) == price_at(i * gs + gs)); }
+}
+/// one NON-skipped step a -> b that ends on its bounded target: the manager steps one group down; if the loop goes on, the group relation holds again
+pub proof fn lemma_step_a2b(gs: int, ts: int, g: int, p0: int, p1: int, target: int, n: int, limit: int)
+    requires 1 <= gs <= 65535, ts > 0, ts % gs == 0, group_rel(g, gs, p0), price_ok(limit), tick_ok(n), target == max_i(limit, price_at(n)), target <= p0,
+        n < (g + 1) * gs, n % ts == 0 || n == -443636, p1 == max_i(target, group_price(g, gs)),
+    ensures p1 != target ==> group_rel(g - 1, gs, p1) && n < g * gs,
+        (p1 == target && p1 != limit) ==> n == g * gs && group_rel(g - 1, gs, p1),
+{
+    axiom_price_at(); lemma_group_arith(g, gs); lemma_gp_mono(g - 1, g, gs); lemma_gp_mono(g, g + 1, gs);
+    let G = g * gs;
+    if p1 != target {
+        // p1 = price(clamp(G)) > target >= price(n) and >= MIN_PRICE, so G is not below the tick range
+        assert(G > -443637);
+        if n >= G { if G <= 443636 { assert(price_at(G) <= price_at(n)) by { if G < n { } } } }
+    } else if p1 != limit {
+        assert(target == price_at(n) && price_at(n) > limit);
+        assert(n != -443636);
+        lemma_div_chain(n, ts, gs);
+        // price(clamp(G)) <= price(n)  ==>  clamp(G) <= n
+        assert(G <= n) by { if n < G { if G <= 443636 { assert(price_at(n) < price_at(G)); } else { assert(n <= 443636 < G); assert(G <= 443636); } } }
+        lemma_multiple_in_window(n, g, gs);
+    }
+}
+/// one NON-skipped step b -> a
+pub proof fn lemma_step_b2a(gs: int, ts: int, g: int, p0: int, p1: int, target: int, n: int, limit: int)
+    requires 1 <= gs <= 65535, ts > 0, ts % gs == 0, group_rel(g, gs, p0), price_ok(limit), tick_ok(n), target == min_i(limit, price_at(n)), target >= p0,
+        n > g * gs, n % ts == 0 || n == 443636, p1 == min_i(target, group_price(g + 1, gs)),
+    ensures p1 != target ==> group_rel(g + 1, gs, p1) && n > (g + 1) * gs,
+        (p1 == target && p1 != limit) ==> n == (g + 1) * gs && group_rel(g + 1, gs, p1),
+{
+    axiom_price_at(); lemma_group_arith(g, gs); lemma_gp_mono(g + 1, g + 2, gs); lemma_gp_mono(g, g + 1, gs);
+    let H = (g + 1) * gs;
+    assert(H > -443637);
+    if p1 != target {
+        assert(H <= 443636) by { if H > 443636 { assert(group_price(g + 1, gs) == MAX_PRICE()); } }
+        if n <= H { assert(price_at(n) <= price_at(H)) by { if n < H { } } }
+    } else if p1 != limit {
+        assert(target == price_at(n) && price_at(n) < limit);
+        assert(n != 443636);
+        lemma_div_chain(n, ts, gs);
+        assert(n <= H) by { if n > H { if H >= -443636 { assert(price_at(H) < price_at(n)); } } }
+        lemma_group_arith(g + 1, gs);
+        vstd::arithmetic::div_mod::lemma_fundamental_div_mod(n, gs);
+        let q = n / gs;
+        assert(q > g) by(nonlinear_arith) requires gs * q > g * gs, gs >= 1;
+        assert(gs * q >= gs * (g + 1)) by(nonlinear_arith) requires q >= g + 1, gs >= 1;
+        assert(gs * (g + 1) == g * gs + gs) by(nonlinear_arith);
+        assert(n >= H);
+    }
+}
+/// one SKIPPED step a -> b (no adaptive fee applies on the way: zero control factor, zero liquidity, or outside the core range): the manager re-derives its
+/// group from the price the step ended on (skip_last_group) and steps one group down
+pub proof fn lemma_skip_a2b(gs: int, ts: int, g: int, p0: int, p1: int, target: int, n: int, limit: int, ub: Option<(i32, u128)>, g2: int)
+    requires 1 <= gs <= 65535, ts > 0, ts % gs == 0, group_rel(g, gs, p0), price_ok(limit), tick_ok(n), target == max_i(limit, price_at(n)), target <= p0,
+        n < (g + 1) * gs, n % ts == 0 || n == -443636, price_ok(p1),
+        p1 == target || (ub matches Some(b) && g > b.0 && tick_ok(b.0 as int * gs + gs) && b.1 as int == price_at(b.0 as int * gs + gs) && p1 == max_i(target, b.1 as int)),
+        ({ let last = skip_last_group(p1, price_at(n), n, gs, true); g2 == (if last < g { last } else { g }) - 1 }),
+    ensures p1 != target ==> group_rel(g2, gs, p1) && n < (g2 + 1) * gs,
+        (p1 == target && p1 != limit) ==> n % gs == 0 && g2 == n / gs - 1 && group_rel(g2, gs, p1),
+{
+    axiom_price_at(); lemma_group_arith(g, gs);
+    if p1 != target {
+        let b = ub->0; let idx = b.0 as int; let U = idx * gs + gs;
+        lemma_group_arith(idx, gs);
+        assert(p1 == price_at(U) && p1 > target);
+        lemma_tick_of_price(U);
+        assert(p1 != price_at(n));
+        assert(U % gs == 0) by { assert(U == gs * (idx + 1)) by(nonlinear_arith) requires U == idx * gs + gs; vstd::arithmetic::div_mod::lemma_fundamental_div_mod_converse(U, gs, idx + 1, 0); }
+        assert(U / gs == idx + 1) by { assert(U == gs * (idx + 1)) by(nonlinear_arith) requires U == idx * gs + gs; vstd::arithmetic::div_mod::lemma_fundamental_div_mod_converse(U, gs, idx + 1, 0); }
+        assert(skip_last_group(p1, price_at(n), n, gs, true) == idx + 1);
+        assert(g2 == idx);
+        lemma_gp_mono(idx, idx + 1, gs);
+        assert(n < U) by { if n >= U { assert(price_at(U) <= price_at(n)) by { if U < n { } } } }
+    } else if p1 != limit {
+        assert(target == price_at(n) && price_at(n) > limit); assert(n != -443636);
+        lemma_div_chain(n, ts, gs);
+        vstd::arithmetic::div_mod::lemma_fundamental_div_mod(n, gs);
+        let q = n / gs;
+        assert(skip_last_group(p1, price_at(n), n, gs, true) == q);
+        if q >= g { assert(n >= g * gs) by(nonlinear_arith) requires n == gs * q, q >= g, gs >= 1; lemma_multiple_in_window(n, g, gs); }
+        assert(g2 == q - 1);
+        lemma_group_arith(q, gs);
+        assert(q * gs == n) by(nonlinear_arith) requires n == gs * q;
+        lemma_gp_mono(q - 1, q, gs);
+    }
+}
+/// one SKIPPED step b -> a
+pub proof fn lemma_skip_b2a(gs: int, ts: int, g: int, p0: int, p1: int, target: int, n: int, limit: int, lb: Option<(i32, u128)>, g2: int)
+    requires 1 <= gs <= 65535, ts > 0, ts % gs == 0, group_rel(g, gs, p0), price_ok(limit), tick_ok(n), target == min_i(limit, price_at(n)), target >= p0,
+        n > g * gs, n % ts == 0 || n == 443636, price_ok(p1),
+        p1 == target || (lb matches Some(b) && g < b.0 && tick_ok(b.0 as int * gs) && b.1 as int == price_at(b.0 as int * gs) && p1 == min_i(target, b.1 as int)),
+        ({ let last = skip_last_group(p1, price_at(n), n, gs, false); g2 == (if last > g { last } else { g }) + 1 }),
+    ensures p1 != target ==> group_rel(g2, gs, p1) && n > g2 * gs,
+        (p1 == target && p1 != limit) ==> n % gs == 0 && g2 == n / gs && group_rel(g2, gs, p1),
+{
+    axiom_price_at(); lemma_group_arith(g, gs);
+    if p1 != target {
+        let b = lb->0; let idx = b.0 as int; let Lt = idx * gs;
+        assert(p1 == price_at(Lt) && p1 < target);
+        lemma_tick_of_price(Lt);
+        assert(p1 != price_at(n));
+        assert(Lt % gs == 0 && Lt / gs == idx) by { assert(Lt == gs * idx) by(nonlinear_arith) requires Lt == idx * gs; vstd::arithmetic::div_mod::lemma_fundamental_div_mod_converse(Lt, gs, idx, 0); }
+        assert(skip_last_group(p1, price_at(n), n, gs, false) == idx - 1);
+        assert(g2 == idx);
+        lemma_gp_mono(idx, idx + 1, gs);
+        assert(n > Lt) by { if n <= Lt { assert(price_at(n) <= price_at(Lt)) by { if n < Lt { } } } }
+    } else if p1 != limit {
+        assert(target == price_at(n) && price_at(n) < limit); assert(n != 443636);
+        lemma_div_chain(n, ts, gs);
+        vstd::arithmetic::div_mod::lemma_fundamental_div_mod(n, gs);
+        let q = n / gs;
+        assert(skip_last_group(p1, price_at(n), n, gs, false) == q - 1);
+        assert(q * gs == n) by(nonlinear_arith) requires n == gs * q;
+        if q - 1 <= g { assert(q >= g + 1) by(nonlinear_arith) requires n > g * gs, n == gs * q, gs >= 1; }
+        assert(g2 == q);
+        lemma_group_arith(q, gs);
+        lemma_gp_mono(q, q + 1, gs);
+    }
+}
 
 /// FeeRateManager::new puts the manager into the tick group of the pool's current tick, which is the group of the pool's price
 pub proof fn lemma_new_group(w: Whirlpool, a_to_b: bool, timestamp: u64, info: AdaptiveFeeInfo)
@@ -144,6 +328,10 @@ pub proof fn lemma_new_group(w: Whirlpool, a_to_b: bool, timestamp: u64, info: A
     assert((g + 1) * gs == g * gs + gs) by(nonlinear_arith);
     if new_spec(a_to_b, w.tick_current_index, timestamp, w.fee_rate, info) is Some {
         let v = reference_after(info.variables, g as i32, timestamp, info.constants)->0;
+        let a = info.variables.volatility_accumulator as int; let rf = info.constants.reduction_factor as int;
+        assert(0 <= a * rf <= a * 10_000) by(nonlinear_arith) requires 0 <= a, 0 <= rf < 10_000;
+        vstd::arithmetic::div_mod::lemma_fundamental_div_mod(a * rf, 10_000);
+        assert((a * rf) / 10_000 <= a) by(nonlinear_arith) requires a * rf == 10_000 * ((a * rf) / 10_000) + (a * rf) % 10_000, (a * rf) % 10_000 >= 0, a * rf <= a * 10_000;
         assert(v.volatility_reference <= info.constants.max_volatility_accumulator);
         assert(ref_ok(info.constants, v));
         lemma_core_range(info.constants, v);
